@@ -21,6 +21,8 @@ def param_args(tool, P):
          '-ri', repr(P.get('ri', 0.5)), '--ecc_algo', str(P.get('algo', 3))]
     if P.get('hash'):
         a += ['--hash', P['hash']]
+    if P.get('v'):
+        a += ['-v']          # verbose must not change any observable the predicates or the model look at
     if tool == 'header':
         a += ['-r', repr(P.get('r', 0.3))]
     else:
